@@ -27,8 +27,8 @@ func (e *Env) barrier() error {
 
 	name := fmt.Sprintf("sync%d", n)
 	body := []byte(fmt.Sprintf("version: %q\nname: %s\nrules:\n- id: %s\n  match:\n    routes:\n      - path: /sync/%d\n"+
-		"  execute:\n    - authenticator: anon\n    - finalizer: s.Tag\n      config:\n        v: %s\n",
-		ruleSetVersion, name, name, n, name))
+		"  execute:\n    - authenticator: anon\n    - finalizer: s.Tag\n      config:\n        v: %s~%s\n",
+		ruleSetVersion, name, name, n, name, e.nonce))
 
 	tmp := filepath.Join(e.tmpDir, name)
 	if err := os.WriteFile(tmp, body, 0o600); err != nil {
